@@ -327,6 +327,7 @@ func (e *Exec) tryLock(p *Value, write bool) bool {
 }
 
 func (e *Exec) lock(p *Value, write bool) {
+	e.preemptPoint()
 	ls := e.lockOf(p)
 	if write && (ls.writer || ls.readers > 0) || !write && ls.writer {
 		e.block(func() bool {
@@ -355,6 +356,7 @@ func (e *Exec) unlock(p *Value, write bool) {
 		ls.readers--
 	}
 	e.lockEvent(p, write, false)
+	e.preemptPoint()
 }
 
 func syncOnceDo(e *Exec, caller *frame, _ *ssa.Function, a []Value) Value {
@@ -804,18 +806,24 @@ func registerAtomics() {
 		return e.c.False
 	}
 	for _, fn := range []string{"Int32", "Int64", "Uint32", "Uint64", "Uintptr"} {
-		intrinsics["sync/atomic.Load"+fn] = func(e *Exec, _ *frame, _ *ssa.Function, a []Value) Value { return e.load(a[0].(*Value)) }
+		intrinsics["sync/atomic.Load"+fn] = func(e *Exec, _ *frame, _ *ssa.Function, a []Value) Value {
+			e.preemptPoint()
+			return e.load(a[0].(*Value))
+		}
 		intrinsics["sync/atomic.Store"+fn] = func(e *Exec, _ *frame, _ *ssa.Function, a []Value) Value {
+			e.preemptPoint()
 			e.store(a[0].(*Value), a[1])
 			return nil
 		}
 		intrinsics["sync/atomic.Add"+fn] = func(e *Exec, _ *frame, _ *ssa.Function, a []Value) Value {
+			e.preemptPoint()
 			p := a[0].(*Value)
 			n := e.c.Bin(smt.KAdd, e.load(p).(*smt.Term), a[1].(*smt.Term))
 			e.store(p, n)
 			return n
 		}
 		intrinsics["sync/atomic.CompareAndSwap"+fn] = func(e *Exec, _ *frame, _ *ssa.Function, a []Value) Value {
+			e.preemptPoint()
 			p := a[0].(*Value)
 			if e.decide(e.c.Eq(e.load(p).(*smt.Term), a[1].(*smt.Term))) {
 				e.store(p, a[2])
@@ -827,6 +835,7 @@ func registerAtomics() {
 }
 
 func atomicCell(e *Exec, recv Value) *Value {
+	e.preemptPoint()
 	p := recv.(*Value)
 	if p == nil {
 		e.runtimePanic("nil atomic")
